@@ -163,8 +163,24 @@ def main(tier, seed):
            ("halving", "x = 1024\nc = 0\nwhile x > 1/1024:\n    x = x/2\n    c = c + 1\nend\n", 30)]
     for name, text, n_det in DET:
         items.append({"id": "simdet-" + name, "text": text, "T": None, "N": n_det})
+    # goals handed to the simulator: the result object evaluates them on every state; in the specification they are
+    # auxiliary variables assigned at the end of the initial block and of the body
+    for it in items:
+        if it["T"] is not None and len(it["T"]["vars"]) >= 1:
+            vs = [v for v in it["T"]["vars"] if not v.startswith("_")]
+            a, b = vs[0], vs[-1]
+            gl = [("_g1", f"{a}*{b}", [(F(1), ((a, 1), (b, 1)) if a != b else ((a, 2),))]),
+                  ("_g2", f"{a} - 2*{b} + 1" if a != b else f"1 - {a}", ([(F(1), ((a, 1),)), (F(-2), ((b, 1),)), (F(1), ())] if a != b else [(F(1), ()), (F(-1), ((a, 1),))])),
+                  ("_g3", a, [(F(1), ((a, 1),))])]
+            it["sim_goals"] = [[n_, g] for n_, g, _p in gl]
+            T2 = dict(it["T"])
+            aux = [("assign", n_, [(F(1), p_)], ("true",), n_) for n_, _g, p_ in gl]
+            T2["vars"] = list(it["T"]["vars"]) + [n_ for n_, _g, _p in gl]
+            T2["init"] = list(it["T"]["init"]) + aux
+            T2["body"] = list(it["T"]["body"]) + aux
+            it["T_goals"] = T2
     jobs = [{"kind": "simulate", "id": it["id"], "text": it["text"], "N": it.get("N", N), "want": ["parsed"], "max_runs": 3000,
-             "timeout": 240} for it in items]
+             "timeout": 240, "sim_goals": it.get("sim_goals", [])} for it in items]
     results = pool.run_jobs(jobs, per_job_timeout=240)
     # continuous samplers: every draw must be location + scale * primitive for the parameters of the CURRENT state
     cont_items, cont_jobs = [], []
@@ -188,7 +204,7 @@ def main(tier, seed):
             run.violation({it["id"]}, {"program": it["text"], "clause": "simulator raised on a parseable program",
                                        "run": bad_runs[0]})
             continue
-        P = gen.instantiate(it["T"], {}) if it["T"] is not None else absyn.prog(res["parsed"][0])
+        P = gen.instantiate(it.get("T_goals") or it["T"], {}) if it["T"] is not None else absyn.prog(res["parsed"][0])
         try:
             D, enc = encode_sim_trace(it["id"], P, it.get("N", N), res["runs"], res["complete"])
         except (E.NotDadic, KeyError) as ex:
